@@ -60,7 +60,11 @@ type Spec struct {
 	ExtraFiles  map[string]string `json:"extra_files"` // overlay path relative to /repo -> file under harness dir
 }
 
-var solverUsed = "z3 4.8.12 (/usr/bin/z3 -in, incremental push/pop)"
+// replayParams are the tier's harness parameters, stored in every replay file so
+// that the native run uses the same bounds as the symbolic one.
+var replayParams map[string]int64
+
+var solverUsed ="z3 4.8.12 (/usr/bin/z3 -in, incremental push/pop)"
 
 type KnownFinding struct {
 	Property string `json:"property"`
@@ -261,6 +265,7 @@ func cmdRun(args []string) int {
 	for _, f := range spec.FairLoops {
 		eng.fairLoops[f] = true
 	}
+	replayParams = eng.params
 	if ts.Unwind > 0 {
 		eng.unwind = ts.Unwind
 	}
@@ -605,7 +610,7 @@ func writeReplay(spec *Spec, v *Violation) string {
 	if i := strings.IndexByte(entry, ':'); i >= 0 {
 		pkgDir, entry = entry[:i], entry[i+1:]
 	}
-	rf := ReplayFile{Property: spec.Property, Entry: entry, Package: pkgDir, Label: v.Label, Key: v.Key, Kind: v.Kind, Detail: v.Detail, Model: v.Model, Choices: v.Choices}
+	rf := ReplayFile{Property: spec.Property, Entry: entry, Package: pkgDir, Label: v.Label, Key: v.Key, Kind: v.Kind, Detail: v.Detail, Model: v.Model, Choices: v.Choices, Params: replayParams}
 	b, _ := json.MarshalIndent(rf, "", " ")
 	h := sha256.Sum256([]byte(v.Key + v.Harness))
 	p := filepath.Join(dir, fmt.Sprintf("%s-%x.json", spec.Property, h[:5]))
